@@ -243,8 +243,11 @@ class World:
         got = self.observe(o, sid)
         return self.finish_recv('wu', sid, want, got, o), o
 
-    def recv_push(self, parent, promised, hdrs=None):
+    def recv_push(self, parent, promised, hdrs=None, invalid_list=False):
         want = self.m.recv_push_verdict(parent, promised)
+        if invalid_list:
+            # an invalid header list is the peer's violation whatever else is going on
+            want = (want - {M.ACCEPT}) | {M.C(M.P)}
         o = self.s.feed(wire.push_promise(parent, promised, self.s.hblock(hdrs or REQ)))
         got = self.observe(o, parent, promised)
         if got == M.ACCEPT and M.ACCEPT in want:
@@ -254,7 +257,7 @@ class World:
                 self.m.hi_peer = promised
                 st = self.m.streams[promised] = M.Stream(promised, local=False, pushed=True)
                 st.close('send-rst')
-        return self.finish_recv('push', parent, want, got, o), o
+        return self.finish_recv('push(bad-list)' if invalid_list else 'push', parent, want, got, o), o
 
     def recv_continuation(self, sid):
         o = self.s.feed(wire.continuation(sid, b''))
